@@ -369,23 +369,17 @@ def run_exec(exe, ops, env=None, timeout=1800):
                 out = out.decode(errors="replace")
             err, rc = "timeout", -9
         idx = start
-        curR = None
-        lines = out.split("\n")
-        k = 0
-        done = 0
-        while k < len(lines):
-            ln = lines[k]
-            if ln.startswith("R "):
-                R = ln[2:]
-                O = None
-                if k + 1 < len(lines) and lines[k + 1].startswith("O "):
-                    O = lines[k + 1][2:]
-                    k += 1
+        curR, curO = None, None
+        for ln in out.split("\n"):
+            if ln.startswith("R ") and curR is None:
+                curR = ln[2:]
+            elif ln.startswith("O "):
+                curO = ln[2:]
+            elif ln == "E":
                 if idx < len(ops):
-                    results[idx] = (R, O)
+                    results[idx] = (curR if curR is not None else "skip", curO)
                     idx += 1
-                    done += 1
-            k += 1
+                curR, curO = None, None
         if idx >= len(ops):
             break
         # crashed or stopped at op idx
